@@ -2,7 +2,8 @@
 arguments (b), partial transition maps are read under a membership guard (c)."""
 import ast
 
-from ..astutil import u, walk_no_nested
+from ..astutil import u, walk_no_nested, expr_guard_atoms
+from .models import resolve_alias
 from ..effects import EL
 from ..types import members
 
@@ -201,10 +202,21 @@ def check_guarded_reads(ctx, rep, funcs, rule=RULE + '.c'):
             if not key.startswith('('):
                 key = '(' + key + ')' if isinstance(e.slice, ast.Tuple) else key
             guarded = False
-            if nid is not None:
-                for a in fx.guard_atoms(nid):
-                    if a[0] == 'in' and a[3] is True and a[1].replace(' ', '') == key.replace(' ', '') and a[2] == u(e.value):
-                        guarded = True
+            # the key may be named: key = (p, a); the map may be aliased: delta = N.delta
+            def _canon(txt):
+                try:
+                    node = ast.parse(txt, mode='eval').body
+                except SyntaxError:
+                    return txt.replace(' ', '')
+                r = resolve_alias(f, node)
+                t = u(r).replace(' ', '')
+                return t[1:-1] if t.startswith('(') and t.endswith(')') else t
+            want_key, want_map = _canon(u(e.slice)), _canon(u(e.value))
+            atoms = list(fx.guard_atoms(nid)) if nid is not None else []
+            atoms += expr_guard_atoms(f.node, e)
+            for a in atoms:
+                if a[0] == 'in' and a[3] is True and _canon(a[1]) == want_key and _canon(a[2]) == want_map:
+                    guarded = True
             if guarded:
                 rep.holds(rule, f, e, 'read of {}.delta is dominated by the membership test on the same key'.format(base[0]))
             else:
